@@ -60,10 +60,10 @@ class History:
 
     def __init__(self, path, initial=None):
         self.path = path
-        self.versions = {}          # v -> python value handed to save_all (deep copy taken at the call)
+        self.versions = {}          # (v, variant) -> python value handed to save_all (deep copy taken at the call)
         self.initial = initial      # python value present before the manager started (or None = no file)
         self.last_raw = b"\0unread"
-        self.last_v = -1
+        self.last_v = (-1, 0)
         self.seen_versions = []
         self.evals = 0
         self.observations = 0
@@ -71,23 +71,26 @@ class History:
         self.tolerant = False       # the caller mutates the dict it handed over (statement silent on snapshots)
 
     def classify(self, raw):
-        """-> (version or None, problem sig or None, detail)"""
+        """-> (rank or None, problem sig or None, detail).  rank = (version, variant): `versions` maps a rank to
+        the exact python value handed to save_all; variants of one version differ only in the TYPE of leaves."""
         if raw is None:
             return None, None, None
         ok, val = V.parse_bytes(raw)
         if not ok:
             return None, "C15:target_torn_or_unparseable", {"error": val, "head": V.short(raw[:120])}
         if self.initial is not None and V.same(val, self.initial):
-            return 0, None, None
+            return (0, 0), None, None
         if not isinstance(val, dict) or "_v" not in val:
             return None, "C15:target_torn_or_unparseable", {"parsed": V.short(val)}
         v = val["_v"]
-        if v not in self.versions:
+        cands = sorted(r for r in self.versions if r[0] == v) if type(v) is int else []
+        if not cands:
             return None, "C15:target_not_a_saved_version", {"parsed": V.short(val), "_v": V.short(v)}
-        if not V.same(val, self.versions[v]):
-            return v, "C15:target_differs_from_saved_version", {"_v": v, "parsed": V.short(val),
-                                                                 "saved": V.short(self.versions[v])}
-        return v, None, None
+        for r in reversed(cands):
+            if V.same(val, self.versions[r]):
+                return r, None, None
+        return None, "C15:target_differs_from_saved_version", {"_v": v, "parsed": V.short(val),
+                                                               "saved": V.short(self.versions[cands[-1]])}
 
     def observe(self, where=""):
         self.observations += 1
@@ -139,7 +142,7 @@ class Engine:
         self.managers = []
         self.hist = []
         self.next_v = 1
-        self.last_saved = {}        # manager idx -> version
+        self.last_saved = {}        # manager idx -> rank (version, variant)
         self.save_order = []        # (seq, manager idx, version)
         self.seq = 0
         self.stop_seq = None
@@ -335,7 +338,7 @@ class Engine:
 
     # ------------------------------------------------------------------ operations of the main thread
     def save(self, m, body, alias=False):
-        """Hand a new version to manager m (real save_all)."""
+        """Hand a new version to manager m (real save_all).  -> rank (version, 0)"""
         m = m % len(self.managers)
         v = self.next_v
         self.next_v += 1
@@ -350,13 +353,46 @@ class Engine:
             data = dict(body)
         data["_v"] = v
         data["_m"] = m
-        self.hist[m].versions[v] = copy.deepcopy(data)
+        data.setdefault("_t", 1)
+        return self._hand(m, (v, 0), data, "save_all m%d v%d" % (m, v))
+
+    def _hand(self, m, rank, data, note):
+        if rank not in self.hist[m].versions:
+            self.hist[m].versions[rank] = copy.deepcopy(data)
         self.seq += 1
-        self.last_saved[m] = v
-        self.save_order.append((self.seq, m, v))
-        self._note("save_all m%d v%d" % (m, v))
-        mgr.save_all(data)
-        return v
+        self.last_saved[m] = rank
+        self.save_order.append((self.seq, m, rank))
+        self._note(note)
+        self.managers[m].save_all(data)
+        return rank
+
+    def resave(self, m, same_obj=False):
+        """The owner saves its state again WITHOUT a change (same dict, or an equal copy).  Only the on-disk
+        content matters: if the earlier write of this content succeeded the writer may skip it."""
+        m = m % len(self.managers)
+        rank = self.last_saved.get(m)
+        if rank is None:
+            return None
+        mgr = self.managers[m]
+        if same_obj and isinstance(mgr.data, dict) and V.same(mgr.data, self.hist[m].versions[rank]):
+            data = mgr.data
+        else:
+            data = copy.deepcopy(self.hist[m].versions[rank])
+        return self._hand(m, rank, data, "save_all m%d v%d.%d again (unchanged content)" % (m, rank[0], rank[1]))
+
+    def typeswap(self, m):
+        """A save whose only difference to the previous one is the TYPE of Python-equal leaves
+        (1 -> True -> 1.0, 0 -> False -> 0.0): a new content, not a new version number."""
+        m = m % len(self.managers)
+        rank = self.last_saved.get(m)
+        if rank is None or rank[1] >= 2:
+            return None
+        data = V.type_variant(copy.deepcopy(self.hist[m].versions[rank]))
+        if V.same(data, self.hist[m].versions[rank]):
+            return None
+        new = (rank[0], rank[1] + 1)
+        return self._hand(m, new, data, "save_all m%d v%d.%d (type-only change of v%d.%d)" % (m, new[0], new[1],
+                                                                                       rank[0], rank[1]))
 
     def stop(self):
         if self.stop_seq is None:
